@@ -313,8 +313,101 @@ func thorough(c *Ctx, repo, verif string, extra map[string]interface{}) int {
 	seedRes, seedFail := runSeeded(c, repo, verif, base)
 	failures += seedFail
 	extra["seeded_changes"] = seedRes
-	fmt.Printf("%s thorough: %d build configurations, %d self-test mutants (%d ok, %d skipped), %d failures\n", c.Prop, len(cfgs), len(mine), nOK, nSkip, failures)
+	// (5) behaviour-preserving refactors written by sub-agents that saw only the repository: verdicts must not change
+	neutRes, neutFail := runNeutral(c, repo, verif, base)
+	failures += neutFail
+	extra["neutral_refactors"] = neutRes
+	fmt.Printf("%s thorough: %d build configurations, %d self-test mutants (%d ok, %d skipped), %d seeded changes, %d neutral refactors, %d failures\n", c.Prop, len(cfgs), len(mine), nOK, nSkip, len(seedRes), len(neutRes), failures)
 	return failures
+}
+
+// overlayFromPatch copies the files a patch touches from repo into a fresh temporary directory and
+// applies the patch there. The caller removes the directory.
+func overlayFromPatch(repo, patch string) (dir string, skipped string, err error) {
+	tmp, err := os.MkdirTemp("", "helios-overlay-")
+	if err != nil {
+		return "", "", err
+	}
+	pb, _ := os.ReadFile(patch)
+	for _, line := range strings.Split(string(pb), "\n") {
+		if !strings.HasPrefix(line, "+++ b/") {
+			continue
+		}
+		f := strings.TrimPrefix(line, "+++ b/")
+		src, err := os.ReadFile(filepath.Join(repo, f))
+		if err != nil {
+			return tmp, f + " no longer exists", nil
+		}
+		_ = os.MkdirAll(filepath.Dir(filepath.Join(tmp, f)), 0o755)
+		_ = os.WriteFile(filepath.Join(tmp, f), src, 0o644)
+	}
+	cmd := exec.Command("patch", "-p1", "-s", "-N", "-d", tmp, "-i", patch)
+	if o, err := cmd.CombinedOutput(); err != nil {
+		return tmp, "patch no longer applies to the current sources: " + firstN(string(o), 120), nil
+	}
+	return tmp, "", nil
+}
+
+// runNeutral overlays each stored behaviour-preserving refactor on /repo and expects no obligation of
+// this property to turn non-ok.
+func runNeutral(c *Ctx, repo, verif string, base map[string]*Obligation) ([]seedResult, int) {
+	patches, _ := filepath.Glob(filepath.Join(verif, "neutral", "*", "patch.diff"))
+	sort.Strings(patches)
+	out := make([]seedResult, len(patches))
+	fails := make([]int, len(patches))
+	sem := make(chan struct{}, 6)
+	var wg sync.WaitGroup
+	for i, patch := range patches {
+		wg.Add(1)
+		go func(i int, patch string) {
+			defer wg.Done()
+			sem <- struct{}{}
+			defer func() { <-sem }()
+			res := seedResult{ID: filepath.Base(filepath.Dir(patch))}
+			defer func() { out[i] = res }()
+			tmp, skipped, err := overlayFromPatch(repo, patch)
+			if tmp != "" {
+				defer os.RemoveAll(tmp)
+			}
+			if err != nil {
+				res.Outcome = "error: " + err.Error()
+				fails[i] = 1
+				return
+			}
+			if skipped != "" {
+				res.Outcome = "skipped: " + skipped
+				return
+			}
+			r, err := runSub(repo, c.Prop, []string{"-overlay-dir", tmp}, nil)
+			switch {
+			case err != nil:
+				res.Outcome = "error: " + err.Error()
+				fails[i] = 1
+			case r.LoadError != "":
+				res.Outcome = "skipped: does not compile against the current sources: " + firstN(r.LoadError, 120)
+			default:
+				for k := range nonOK(r.Obs) {
+					if _, ok := base[k]; !ok {
+						res.Fired = append(res.Fired, k)
+					}
+				}
+				sort.Strings(res.Fired)
+				if len(res.Fired) == 0 {
+					res.Outcome = "ok: silent"
+				} else {
+					res.Outcome = "FAILED: false alarm on a behaviour-preserving refactor"
+					fails[i] = 1
+					fmt.Printf("  neutral refactor %s: FALSE ALARM %v\n", res.ID, res.Fired)
+				}
+			}
+		}(i, patch)
+	}
+	wg.Wait()
+	n := 0
+	for _, f := range fails {
+		n += f
+	}
+	return out, n
 }
 
 func doReplay(c *Ctx, file string) int {
